@@ -1157,6 +1157,11 @@ def gen_cfg(rng, alpha_kinds=('fixed',), universe_kinds=('static',), max_days=25
                 a0 = rng.choice(pos_w)
                 share = w[a0] / sum(w.values())
                 mk.setdefault('level', {})[a0[3:]] = cfg['cash'] * (1 - cfg['buffer']) * share * rng.choice([0.45, 0.9, 0.97, 1.02])
+        if len(assets) >= 2 and rng.random() < 0.12:
+            # two share classes / a duplicated series: the second file is a copy of the first, both get the same weight -
+            # equal quantities, equal market values, equal P&L
+            mk['clone'] = {syms[1]: syms[0]}
+            w[assets[0]] = w[assets[1]] = rng.choice([0.5, 0.3, 1.0])
         cfg['alpha'] = {'kind': 'fixed', 'weights': w}
     elif ak == 'switch':
         # a static universe of all but the last asset; the model also weights that outsider for a while, then drops it:
